@@ -274,9 +274,9 @@ harnesses! {
     #[kani::stub(alloc::string::String::from_utf8, string_from_utf8_ascii)]
     x10_esc_min_mid,  unwind = 16, raw = 1,  |r| check_escape1(r, 2, b">x<", 1);
     #[kani::stub(alloc::string::String::from_utf8, string_from_utf8_unchecked_stub)]
-    x10_esc_full_u2, unwind = 8, raw = 2, |r| check_escape_u2(r, 0);
+    x10_esc_full_u2, unwind = 5, raw = 2, |r| check_escape_u2(r, 0);
     #[kani::stub(alloc::string::String::from_utf8, string_from_utf8_unchecked_stub)]
-    x10_esc_min_u2,  unwind = 8, raw = 2, |r| check_escape_u2(r, 2);
+    x10_esc_min_u2,  unwind = 5, raw = 2, |r| check_escape_u2(r, 2);
     #[kani::stub(core::str::from_utf8, from_utf8_ascii)]
     #[kani::stub(alloc::string::String::from_utf8, string_from_utf8_ascii)]
     x10_inv_lt,   unwind = 12, raw = 1, |r| check_unescape_entity(r, 0);
@@ -348,6 +348,9 @@ harnesses! {
     h2_pi_n4,  unwind = 7, raw = 6,  |r| check_helper::<4, 1, 0>(r, 2, C02, 0);
     h18_pi_n3, unwind = 9, raw = 8,  |r| check_helper::<3, 1, 3>(r, 2, C02 | C18, 0);
     h2_bang_n4,  unwind = 7, raw = 6,  |r| check_helper::<4, 1, 0>(r, 3, C02, 33);
+    h2_bang_n3,  unwind = 6, raw = 5,  |r| check_helper::<3, 1, 0>(r, 3, C02, 33);
+    h2_bang_n2,  unwind = 5, raw = 4,  |r| check_helper::<2, 1, 0>(r, 3, C02, 33);
+    h18_bang_n2, unwind = 8, raw = 7,  |r| check_helper::<2, 1, 3>(r, 3, C02 | C18, 33);
     h18_bang_n3, unwind = 9, raw = 8,  |r| check_helper::<3, 1, 3>(r, 3, C02 | C18, 33);
     h2_skipws_n4,  unwind = 7, raw = 6,  |r| check_helper::<4, 1, 0>(r, 4, C02, 0);
     h18_skipws_n3, unwind = 9, raw = 8,  |r| check_helper::<3, 1, 3>(r, 4, C02 | C18, 0);
